@@ -1334,6 +1334,8 @@ func TestVerifH2(t *testing.T) {
 	only := vhEnvInt("VERIF_HIST", -1)
 	vt.Watchdog(90 * time.Second)
 	if only < 0 {
+		h2Fingerprints(vt)
+		vt.Flush()
 		h2RealSockets(vt)
 		vt.Flush()
 		h2BindResponseLost(t, vt)
@@ -1351,5 +1353,69 @@ func TestVerifH2(t *testing.T) {
 		vt.Note("history %d", i)
 		runH2History(t, vt, vt.Seed*1000003+int64(i), nOps)
 		vt.Flush()
+	}
+}
+
+// h2Fingerprints compares FiveTuple.Equal with the model's key (Model/FiveTuple.lean; fpAddr_injective) on every pair
+// from a pool of addresses chosen to collide if the key were built carelessly: the two spellings of an IPv4 address,
+// IPv6 addresses that share leading or trailing bytes with it, ports at the uint16 limits, both address types.
+func h2Fingerprints(vt *vhT) {
+	rng := rand.New(rand.NewSource(vt.Seed + 77)) // its own stream: the histories that follow keep theirs
+	ips := []net.IP{
+		net.IPv4(10, 0, 0, 2).To4(), net.IPv4(10, 0, 0, 2).To16(), net.ParseIP("a00:2::"), net.ParseIP("::a00:2"), net.ParseIP("::a00:2:0:0"),
+		net.IPv4(10, 0, 0, 3).To4(), net.ParseIP("fd00::2"), net.ParseIP("::ffff:0:0"), net.IPv4zero.To4(), net.IPv6unspecified,
+		net.ParseIP("ff:ff00::"), net.IPv4(0, 255, 255, 0).To4(),
+	}
+	ports := []int{0, 1, 4000, 4001, 65535}
+	type ad struct {
+		ip   net.IP
+		port int
+	}
+	var pool []ad
+	for _, ip := range ips {
+		for _, p := range ports {
+			pool = append(pool, ad{ip, p})
+		}
+	}
+	mk := func(a ad, tcp bool) net.Addr {
+		if tcp {
+			return &net.TCPAddr{IP: a.ip, Port: a.port}
+		}
+		return &net.UDPAddr{IP: a.ip, Port: a.port}
+	}
+	hex := func(ip net.IP) string {
+		if len(ip) == 0 {
+			return "."
+		}
+		return fmt.Sprintf("%x", []byte(ip))
+	}
+	one := func(p1 allocation.Protocol, s1, d1 ad, p2 allocation.Protocol, s2, d2 ad) {
+		t1 := &allocation.FiveTuple{Protocol: p1, SrcAddr: mk(s1, p1 == allocation.TCP), DstAddr: mk(d1, rng.Intn(2) == 0)}
+		t2 := &allocation.FiveTuple{Protocol: p2, SrcAddr: mk(s2, p2 == allocation.TCP), DstAddr: mk(d2, rng.Intn(2) == 0)}
+		vt.Op("fp %d %s %d %s %d %d %s %d %s %d", p1, hex(s1.ip), s1.port, hex(d1.ip), d1.port, p2, hex(s2.ip), s2.port, hex(d2.ip), d2.port)
+		if t1.Equal(t2) {
+			vt.Obs("eq")
+		} else {
+			vt.Obs("ne")
+		}
+	}
+	srv := ad{net.IPv6unspecified, 3478}
+	// every pair of client addresses on one listener
+	for _, a := range pool {
+		for _, b := range pool {
+			one(allocation.UDP, a, srv, allocation.UDP, b, srv)
+		}
+	}
+	// random full tuples: the server side and the protocol vary too
+	for i := 0; i < 4000; i++ {
+		a, b := pool[rng.Intn(len(pool))], pool[rng.Intn(len(pool))]
+		c, d := pool[rng.Intn(len(pool))], pool[rng.Intn(len(pool))]
+		if rng.Intn(2) == 0 {
+			c = a
+		}
+		if rng.Intn(2) == 0 {
+			d = b
+		}
+		one(allocation.Protocol(rng.Intn(2)), a, b, allocation.Protocol(rng.Intn(2)), c, d)
 	}
 }
